@@ -53,6 +53,30 @@ def _unit_shard(args):
                         n += 1
                         if got != exp:
                             bad.append(("channels|%s|%s" % (bt.name, "split" if split else "plain"), dict(H=H, chan=True, bt=bt.name, c0=c0, c1=c1, split=bool(split)), got, exp))
+    # 2x upscaling (RESIZE lowered to a 1x1 pooling operation on the upscaled map), alone and behind a fused split / slice read along the
+    # channels or the rows: the OFM rows [y0, y1) (cut at even rows, as the scheduler does) come from the IFM rows [y0/2, y1/2) of the slice
+    for H in Hs if kmax else ():
+        kern = Kernel(1, 1, 1, 1, 1, 1)
+        for split, sshape in ((None, None), ([0, 0, 0, 8], [1, H, W, 8]), ([0, 1, 0, 0], [1, H, W, 16])):
+            full = Shape4D([1, H + (1 if split and split[1] else 0) + (1 if split and split[1] else 0), W, 16])
+            for y0 in range(0, 2 * H, 2):
+                for y1 in range(y0 + 2, 2 * H + 1, 2):
+                    box = Box([0, y0, 0, 0], [1, y1, 2 * W, 8 if split and split[3] else 16])
+                    off = split[1] if split else 0
+                    exp = (y0 // 2 + off, y1 // 2 + off)
+                    n += 1
+                    try:
+                        ib, ptop, pbot = box.transform_with_strides_and_skirt([1, 1, 1, 1], [0, 0, 0, 0], full, NpuBlockType.Pooling, [0, 0, 0, 0], 1,
+                                                                              Shape4D(split) if split else None, Shape4D(sshape) if split else None, 2)
+                    except AssertionError:
+                        # the Box constructor refuses an interval whose end lies before its start
+                        bad.append(("upscale2|%s" % ("plain" if not split else ("channel-slice" if split[3] else "row-slice")),
+                                    dict(H=H, up=True, y0=y0, y1=y1, split=split), ("empty or reversed IFM interval",), exp + (0, 0)))
+                        continue
+                    got = (int(ib.start_coord[1]), int(ib.end_coord[1]))
+                    if got != exp or int(ptop) or int(pbot):
+                        bad.append(("upscale2|%s" % ("plain" if not split else ("channel-slice" if split[3] else "row-slice")),
+                                    dict(H=H, up=True, y0=y0, y1=y1, split=split), got + (int(ptop), int(pbot)), exp + (0, 0)))
     for H in Hs:
         for k in range(1, kmax + 1):
             for s in (1, 2, 3):
@@ -226,6 +250,8 @@ def _key(key, name):
 def replay(ctx, case):
     if case.get("unit"):
         n, bad, nb = _unit_shard(([case["p"]["H"]], 8 if not case["p"].get("chan") else 0))
+        if case["p"].get("up"):
+            return [str(b) for b in bad if b[1].get("up") and (b[1]["y0"], b[1]["y1"], b[1]["split"]) == (case["p"]["y0"], case["p"]["y1"], case["p"]["split"])]
         return [str(b) for b in bad if b[1] == case["p"]]
     return netrun.replay_case(oracle, case)
 
